@@ -1,4 +1,5 @@
 import SSV.Proofs.PipeStable
+import SSV.Proofs.PipeTerm
 /-
 C15 — concrete runs of the model (witnesses that the hypotheses of the property theorems are satisfiable, and
 that the model can actually transfer data, half-close, time out).
@@ -44,6 +45,11 @@ theorem c3_reachable : Reachable c3 :=
   reach_step1 (reach_step1 (reach_start .init 0 _ (by decide)) 0 (by decide)) 0 (by decide)
 
 theorem c3_closed : closedAs c3 .eof := ⟨by decide, by decide⟩
+
+theorem c3_bounded : Bounded 1 c3 := by
+  intro i hi
+  have h : i ≠ 0 := by omega
+  simp [c3, c2, c1, step1, startD, start, localSteps, init, State.setT, Op.entry, h]
 
 /-! thread 0 writes [1,2,3]; thread 1 reads with a 2-byte buffer -/
 def w1 := startD init 0 (.write [1, 2, 3])
